@@ -784,6 +784,12 @@ func extRandIntn(fr *frame, a []value) value {
 func extParseInt(fr *frame, a []value) value {
 	base, _ := a[1].(int)
 	bitSize, _ := a[2].(int)
+	if ss, ok := a[0].(symstr); ok {
+		// exactly the digit bytes of an expanded decimal text: that number again
+		if x, ok := decOriginOf(ss.b); ok {
+			a[0] = decstr{x}
+		}
+	}
 	switch s := a[0].(type) {
 	case string:
 		n, err := strconv.ParseInt(s, base, bitSize)
@@ -801,11 +807,6 @@ func extParseInt(fr *frame, a []value) value {
 				return tuple{fromTerm(types.Typ[types.Int64], s.x), iface{}}
 			}
 			return tuple{int64(0), errValue("strconv.ParseInt: value out of range")}
-		}
-	}
-	if ss, ok := a[0].(symstr); ok && base == 10 && bitSize == 64 {
-		if x, ok := decOriginOf(ss.b); ok {
-			return tuple{fromTerm(types.Typ[types.Int64], x), iface{}}
 		}
 	}
 	return notHandled // interpret the stdlib body
@@ -1217,6 +1218,16 @@ func extHasPrefix(fr *frame, a []value) value {
 	t, ok2 := goString(a[1])
 	if ok1 && ok2 {
 		return strings.HasPrefix(s, t)
+	}
+	if d, isDec := a[0].(decstr); isDec && ok2 {
+		// the canonical decimal text of a number starts with '-' or a digit
+		if t == "" {
+			return true
+		}
+		if c := t[0]; c != '-' && (c < '0' || c > '9') {
+			return false
+		}
+		a[0] = symstr{expandDec(d.x)}
 	}
 	xc, okx := strCells(a[0])
 	yc, oky := strCells(a[1])
